@@ -197,14 +197,18 @@ fn run(args: &Args, rep: &mut Report) {
     rep.add("tables-and-identities", true, "16 colours + 256 indices x 8 palettes: table, identities, index bijection, xterm_to_ansi", vec![acc]);
 
     let n = rt::workers();
-    if tier == rt::Tier::Thorough {
+    // the complete RGB cube: all targets in the thorough tier, the 240-colour target and the
+    // two published palettes in the quick tier (seeded palettes then only on the boundary set)
+    let cube_cx = if tier == rt::Tier::Thorough { Ctx { xterm: cx.xterm.clone(), palettes: cx.palettes.clone() } } else { Ctx { xterm: cx.xterm.clone(), palettes: cx.palettes[..2].to_vec() } };
+    {
+        let cx = &cube_cx;
         let accs = rt::par(n, |w| {
             let mut acc = Acc::new();
             for r in (0..256usize).filter(|r| r % n == w) {
                 for g in 0..256usize {
                     for b in 0..256usize {
                         let c = (r as u8, g as u8, b as u8);
-                        if let Err(m) = check_rgb(&cx, c, &mut acc, true) {
+                        if let Err(m) = check_rgb(cx, c, &mut acc, true) {
                             acc.fail("all-rgb", json!({"rgb": [c.0, c.1, c.2]}), m);
                             return acc;
                         }
@@ -214,8 +218,9 @@ fn run(args: &Args, rep: &mut Report) {
             }
             acc
         });
-        rep.add("all-rgb", true, "all 2^24 RGB values x (240-colour target + 8 palettes)", accs);
-    } else {
+        rep.add("all-rgb", true, &format!("all 2^24 RGB values x (240-colour target + {} palettes)", cube_cx.palettes.len()), accs);
+    }
+    if tier != rt::Tier::Thorough {
         // boundary set: lattice, candidates +-1, midpoints between candidates +-1
         let mut pts: Vec<Rgb> = vec![];
         let steps: Vec<u8> = (0..=255u16).step_by(15).map(|v| v as u8).collect();
